@@ -54,6 +54,17 @@ def run(ctx) -> None:
                             what=f"{fn_.fq}: build ids are ordered through int()")
     ctx.notes["bid_order_comparisons"] = n_cmp
 
+    # the v2 bump is decided by evaluating _incr_numeric (C05's evaluation: the build id is padded below 1000 and replaced by its lexid
+    # successor under every combination of flags); the statement-level rules below decide when it cannot be evaluated
+    from checks.c05 import incr_numeric_eval
+    ev17 = incr_numeric_eval(ctx)
+    if ev17 is not None:
+        bid_wrong = [w_ for w_ in ev17 if "'bid'" in w_ or "raises" in w_ or "_reset_rollover_fields" in w_]
+        ctx.check("R1", not bid_wrong, f"_incr_numeric: bid := lexid.next_id(bid, padded by 1000 below 1000) on every bump ({ctx.notes.get('incr_numeric_cases')} flag / tag / build id combinations evaluated)",
+                  "v2version._incr_numeric: the build id is not advanced with lexid.next_id", "; ".join(bid_wrong[:2]), loc=prog.function("v2version._incr_numeric").loc())
+        ctx.check("R4", not bid_wrong, "_incr_numeric: ids below 1000 are lifted by 1000 before the successor is taken (evaluated for '0998' and '7')",
+                  "v2version._incr_numeric: padding step for short ids vanished", "; ".join(bid_wrong[:2]), loc=prog.function("v2version._incr_numeric").loc())
+    chk = ctx.check if ev17 is None else (lambda *a_, **k_: True)
     inc = prog.function("v2version._incr_numeric")
     ctx.visit(inc.fq)
     cfg = cfgs.get(inc.fq)
@@ -68,17 +79,17 @@ def run(ctx) -> None:
                     bid_sets.append((n, kw.value))
     nxt = [(n, v) for n, v in bid_sets if isinstance(v, ast.Call) and prog.resolve_call(inc, v, count=False).name == "lexid.next_id"]
     pad = [(n, v) for n, v in bid_sets if (n, v) not in nxt]
-    ctx.check("R1", len(nxt) == 1, "_incr_numeric: one bid := lexid.next_id(...) update", "v2version._incr_numeric: the build id is not advanced with lexid.next_id", f"{[unparse(v) for _n, v in bid_sets]}", loc=inc.loc())
+    chk("R1", len(nxt) == 1, "_incr_numeric: one bid := lexid.next_id(...) update", "v2version._incr_numeric: the build id is not advanced with lexid.next_id", f"{[unparse(v) for _n, v in bid_sets]}", loc=inc.loc())
     if len(nxt) == 1:
         n, v = nxt[0]
-        ctx.check("R1", [unparse(a) for a in v.args] == [f"{cur}.bid"] and unparse(n.ast.targets[0]) == cur and unparse(n.ast.value.func.value) == cur,
+        chk("R1", [unparse(a) for a in v.args] == [f"{cur}.bid"] and unparse(n.ast.targets[0]) == cur and unparse(n.ast.value.func.value) == cur,
                   "_incr_numeric: successor of the current id, stored back into the current version", "v2version._incr_numeric: successor not taken of / stored to the current build id", unparse(n.ast), loc=inc.loc(n.ast))
         r = pc.reach(n.id)
-        ctx.check("R1", r.is_true(), "_incr_numeric: the successor is taken on every bump (no flag guards it)", "v2version._incr_numeric: BUILD is advanced only under a condition",
+        chk("R1", r.is_true(), "_incr_numeric: the successor is taken on every bump (no flag guards it)", "v2version._incr_numeric: BUILD is advanced only under a condition",
                   f"reached iff {r.to_dnf()}", loc=inc.loc(n.ast), witness=(~r).models(1))
         # no normal return bypasses it
         wo = cfg.reachable(blocked_nodes=[n.id])
-        ctx.check("R1", cfg.exit not in wo, "_incr_numeric: every return passes the successor step", "v2version._incr_numeric: a return path skips the BUILD successor", "", loc=inc.loc())
+        chk("R1", cfg.exit not in wo, "_incr_numeric: every return passes the successor step", "v2version._incr_numeric: a return path skips the BUILD successor", "", loc=inc.loc())
     v1 = prog.function("v1version.incr")
     ctx.visit(v1.fq)
     g1 = cfgs.get(v1.fq)
@@ -168,7 +179,7 @@ def run(ctx) -> None:
     ctx.observe(f"int-converting field loops in v2version: {n_conv}")
 
     # ---------------------------------------------------------------- R4
-    ctx.check("R4", len(pad) == 1, "_incr_numeric: one padding update of bid", "v2version._incr_numeric: padding step for short ids vanished", f"{len(pad)}", loc=inc.loc())
+    chk("R4", len(pad) == 1, "_incr_numeric: one padding update of bid", "v2version._incr_numeric: padding step for short ids vanished", f"{len(pad)}", loc=inc.loc())
     if len(pad) == 1 and len(nxt) == 1:
         pn, pv_ = pad[0]
         # value: str(int(cur.bid) + T)
@@ -183,8 +194,8 @@ def run(ctx) -> None:
             if isinstance(tree.comparators[0], ast.Constant):
                 T2 = tree.comparators[0].value
         ok = T1 is not None and T1 == T2 and str(T1) == "1" + "0" * (len(str(T1)) - 1)
-        ctx.check("R4", ok, f"padding: int(bid) < {T2} -> str(int(bid) + {T1}), the same power of ten", "v2version._incr_numeric: padding threshold and offset disagree / are not a power of ten",
+        chk("R4", ok, f"padding: int(bid) < {T2} -> str(int(bid) + {T1}), the same power of ten", "v2version._incr_numeric: padding threshold and offset disagree / are not a power of ten",
                   f"threshold {T2}, offset {T1}", loc=inc.loc(pn.ast))
         if len(atoms) == 1:
-            ctx.check("R4", pc.reach(pn.id).equiv(BF.var(atoms[0])), "padding applied exactly when the id is below the threshold", "v2version._incr_numeric: padding applied under another condition", pc.reach(pn.id).to_dnf(), loc=inc.loc(pn.ast))
-        ctx.check("R4", nxt[0][0].id in cfg.reachable(pn.id) and pn.id not in cfg.reachable(nxt[0][0].id), "padding precedes the successor", "v2version._incr_numeric: padding happens after the successor was taken", "", loc=inc.loc(pn.ast))
+            chk("R4", pc.reach(pn.id).equiv(BF.var(atoms[0])), "padding applied exactly when the id is below the threshold", "v2version._incr_numeric: padding applied under another condition", pc.reach(pn.id).to_dnf(), loc=inc.loc(pn.ast))
+        chk("R4", nxt[0][0].id in cfg.reachable(pn.id) and pn.id not in cfg.reachable(nxt[0][0].id), "padding precedes the successor", "v2version._incr_numeric: padding happens after the successor was taken", "", loc=inc.loc(pn.ast))
